@@ -81,6 +81,10 @@ def session_lists():
     out["3s:a"] = [(1, True, False), (4, True, True), (2, True, True)]
     out["3s:b"] = [(2, True, True), (1, False, False), (3, True, True)]
     out["3s:c"] = [(1, True, True), (1, True, True), (1, True, True)]
+    # sessions without a single step, first / in the middle / last: the clock is the number of COMPLETED steps all the same
+    out["z:first"] = [(0, True, True), (3, True, True)]
+    out["z:first_two"] = [(0, True, False), (0, True, True), (2, True, True)]
+    out["z:mid_last"] = [(2, True, True), (0, False, False), (2, True, False), (0, True, True)]
     return out
 
 
